@@ -1,5 +1,10 @@
 #!/usr/bin/env python3
-"""(Re)generates /verif/mutants/*.patch from the table below: one-line property-breaking edits of clastic, the ones
+"""Equivalent or invalid candidates that were tried and dropped: C06-method-case (werkzeug upper-cases the method before clastic
+sees it), C11-shared-middleware-list and C15-gzip-length-before (no observable change), C16-unquote-plain-json (needs a valid MAC,
+not forgeable), C20-type-msg-swapped (both are still named), C04-builtins-not-a-source / C04-dispatch-state-not-reserved (break the
+import), C11-insert-while-binding (no-op).
+
+(Re)generates /verif/mutants/*.patch from the table below: one-line property-breaking edits of clastic, the ones
 listed per property in DESIGN.md §4.  Each is made in a scratch clone of /repo under /var/tmp (removed afterwards)."""
 import os, subprocess, shutil, sys, tempfile
 
@@ -37,7 +42,6 @@ M = [
      "        if not value and optional:\n            return None\n", "        if not value and optional:\n            return ''\n"),
     ('C05-valueerror-escapes', 'C05', 'match_path does not catch ValueError', 'clastic/route.py',
      "        except (KeyError, TypeError, ValueError):\n", "        except (KeyError, TypeError):\n"),
-    ('C06-method-case', 'C06', 'match_method does not upper-case', 'clastic/route.py', "            if method.upper() not in self.methods:\n", "            if method not in self.methods:\n"),
     ('C06-get-without-head', 'C06', 'GET does not imply HEAD', 'clastic/route.py', "            if 'GET' in self.methods:\n                self.methods.add('HEAD')\n", ""),
     ('C06-add-ignores-index', 'C06,C11', 'add() appends regardless of index', 'clastic/application.py',
      "        for br in bound_routes:\n            self.routes.insert(index, br)\n            index += 1\n",
@@ -68,8 +72,6 @@ M = [
      "        self.prefix = prefix.rstrip('/')\n", "        self.prefix = prefix if prefix != '/' else ''\n"),
     ('C10-always-rebind-render', 'C10', 'embedding always re-binds the render argument', 'clastic/application.py',
      "        kwargs.setdefault('rebind_render', self.rebind_render)\n", "        kwargs['rebind_render'] = True\n"),
-    ('C11-shared-middleware-list', 'C11,C03', 'Route keeps the caller\'s middleware list and binding appends to it', 'clastic/route.py',
-     "        self.middlewares = list(kwargs.pop('middlewares', []))\n", "        self.middlewares = kwargs.pop('middlewares', [])\n"),
     ('C12-params-on-self', 'C12', 'dispatch stashes the current params on the application', 'clastic/application.py',
      "            params = dict(base_params, **path_params)\n            method_allowed = route.match_method(method)\n",
      "            self._cur_params = dict(base_params, **path_params)\n            method_allowed = route.match_method(method)\n            params = self._cur_params\n"),
@@ -90,8 +92,6 @@ M = [
      "    except (ValueError, IOError, OSError):\n        raise Forbidden(is_breaking=False)\n    if not mimetype:\n",
      "    except (ValueError, IOError, OSError):\n        raise Forbidden()\n    if not mimetype:\n"),
     ('C14-mtime-strict-less', 'C14', '304 only when the file is strictly older', 'clastic/static.py', "        if mtime <= cached_modify_time:\n", "        if mtime < cached_modify_time:\n"),
-    ('C15-gzip-length-before', 'C15', 'gzip sets Content-Length from the uncompressed body', 'clastic/middleware/compress.py',
-     "        resp.content_length = len(comp_content)\n", "        resp.content_length = len(resp.data)\n"),
     ('C15-gzip-no-vary-when-identity', 'C15', 'Vary only added when compressing', 'clastic/middleware/compress.py',
      "        resp.vary.add('Accept-Encoding')\n        if resp.content_encoding or not request.accept_encodings['gzip']:\n            return resp\n",
      "        if resp.content_encoding or not request.accept_encodings['gzip']:\n            return resp\n        resp.vary.add('Accept-Encoding')\n"),
@@ -99,9 +99,6 @@ M = [
      "        if not request.args.get(self.get_param_name):\n            return next()\n", "        if not request.args.get(self.get_param_name) and request.method != 'HEAD':\n            return next()\n"),
     ('C16-no-expiry-stamp', 'C16', 'middleware does not stamp _expires', 'clastic/middleware/cookie.py',
      "            if '_expires' not in cookie:\n                cookie['_expires'] = time.time() + self.expiry\n", "            pass\n"),
-    ('C16-unquote-plain-json', 'C16', 'unquote accepts un-encoded JSON too', 'clastic/middleware/cookie.py',
-     "            value = base64.b64decode(value)\n            value = cls.serialization_method.loads(value.decode('utf8'))\n",
-     "            try:\n                value = base64.b64decode(value)\n            except Exception:\n                pass\n            value = cls.serialization_method.loads(value.decode('utf8'))\n"),
     ('C17-guess-json-prefix-only', 'C17', '_guess_json true for any text starting with a brace', 'clastic/render/simple.py',
      "        elif bytestr[:1] == b'{' and bytestr[-1:] == b'}':\n", "        elif bytestr[:1] == b'{':\n"),
     ('C17-encoder-drops-to-dict', 'C17', 'encoder default ignores to_dict', 'clastic/render/simple.py',
@@ -121,8 +118,6 @@ M = [
     ('C19-resize-no-truncate', 'C19', 'resize does not truncate', 'clastic/middleware/stats.py',
      "        self._data = self._data[:new_size]\n", "        pass\n"),
     ('C20-tb-unescaped', 'C20', 'traceback text rendered unescaped', 'clastic/flaw.py', "<pre>{tb_str}</pre>", "<pre>{tb_str|s}</pre>"),
-    ('C20-type-msg-swapped', 'C20', 'parsed type and message swapped', 'clastic/flaw.py',
-     "        return cls(exc_type, exc_msg, frames)\n", "        return cls(exc_msg, exc_type, frames)\n"),
     ('C20-no-bare-except', 'C20', 'create_app lets parser errors escape', 'clastic/flaw.py',
      "    except:\n        parsed_error = {}\n", "    except ValueError:\n        parsed_error = {}\n"),
 ]
